@@ -1272,7 +1272,18 @@ def check_inplace(ctx, rep, rule='C11.W', only=None):
             # client code (outside the parameter classes) does not know the kind of the parameter it is handed: the getter of a view returns a view of ANOTHER
             # parameter's storage, that of a transformed parameter its cache, that of a concatenation a copy.  Only the setter, which every kind implements for
             # itself, writes the value where it lives and notifies the parameters it is derived from; `fire_parameter_changed()` on the handle alone does not.
-            if rule == 'C11.W' and m.name != 'torchtree.core.parameter' and self_attr(owner) is None or (rule == 'C11.W' and m.name == '<example>'):
+            abstract_slot = False
+            if self_attr(owner) is not None and p is not None:
+                # an attribute the constructor declares as AbstractParameter (any kind: a view, a concatenation, a transformed parameter) is no better known to the class
+                # than a parameter handed to a function
+                for b_ in p.body:
+                    if isinstance(b_, ast.FunctionDef) and b_.name == '__init__':
+                        ann_ = {a_.arg: ast.unparse(a_.annotation) for a_ in b_.args.args + b_.args.kwonlyargs if a_.annotation is not None}
+                        for a2_ in ast.walk(b_):
+                            if isinstance(a2_, ast.Assign) and any(self_attr(t_) == self_attr(owner) for t_ in a2_.targets) and isinstance(a2_.value, ast.Name) \
+                                    and 'AbstractParameter' in ann_.get(a2_.value.id, ''):
+                                abstract_slot = True
+            if rule == 'C11.W' and m.name != 'torchtree.core.parameter' and (self_attr(owner) is None or abstract_slot) or (rule == 'C11.W' and m.name == '<example>'):
                 local_plain = isinstance(owner, ast.Name) and any(
                     isinstance(a_, ast.Assign) and any(isinstance(t_, ast.Name) and t_.id == owner.id for t_ in a_.targets) and isinstance(a_.value, ast.Call)
                     and (dotted_name(a_.value.func) or '').split('.')[-1] == 'Parameter' for a_ in ast.walk(fn))
